@@ -45,7 +45,8 @@ THEOREMS = ['C14_squeeze_closed_form', 'C14_content_layout',
             'C14_parse_all_congruence_linked', 'C14_parse_metamorphic_linked',
             'C14_parse_metamorphic_c09_linked', 'C14_message_no_blank_refuted',
             'C14_surface_reader_linked', 'C14_spellings_same_number_linked',
-            'C14_shorthand_expected_jim', 'C14_parse_metamorphic_density_linked']
+            'C14_shorthand_expected_jim', 'C14_parse_metamorphic_density_linked',
+            'C14_decimal_point_same_value_linked']
 TRUSTED = [
     'hand-written model coq/C14/Model.v (modelled, tied by execution only); '
     'regexes re-implemented as scanners: tied exhaustively on short strings '
